@@ -1087,6 +1087,32 @@ def _next_call(e):
     return None
 
 
+def _erase_lifetimes(t):
+    import re as _re
+    t = _re.sub(r"<'\w+>", "", t)
+    t = _re.sub(r"'\w+,\s*", "", t)
+    return _re.sub(r"'\w+\s*", "", t)
+
+
+def _find_impl(self, self_ty, trait_method):
+    """The body `<self_ty as Trait>::method` of an inlinable crate, matched up to lifetime names."""
+    want = f"<{_erase_lifetimes(self_ty)} as {trait_method}"
+    crate = self_ty.lstrip("&").replace("mut ", "").split("::")[0]
+    if crate not in self.inline_crates:
+        return None
+    try:
+        bodies = self.facts.crate(crate)["_bodies"]
+    except Exception:
+        return None
+    for path in bodies:
+        if path.startswith("<") and _erase_lifetimes(path) == want:
+            return crate, path
+    return None
+
+
+Evaluator._find_impl = _find_impl
+
+
 def _drain(self, e, it):
     """The items of a for loop over a value whose `Iterator::next` is a function of an inlinable crate: `next` is evaluated on
     the iterator value until it yields None (bounded)."""
@@ -1100,7 +1126,19 @@ def _drain(self, e, it):
         cal = f"<{ty} as core::iter::traits::iterator::Iterator>::next"
     crate = cal.lstrip("<&").split("::")[0]
     if not (crate in self.inline_crates and cal in self.facts.crate(crate)["_bodies"]):
-        raise Unrecognised(f"for loop over {str(it)[:40]}")
+        # `for x in &collection`: the collection's own IntoIterator, then its iterator's next
+        sc = hir.simp(e["scrut"])
+        found = None
+        if hir.is_call(sc, "IntoIterator::into_iter"):
+            arg_ty = str(hir.simp(sc["args"][0]).get("ty", ""))
+            conv = self._find_impl(arg_ty, "core::iter::traits::collect::IntoIterator>::into_iter") if arg_ty else None
+            nxt = self._find_impl(str(sc.get("ty", "")), "core::iter::traits::iterator::Iterator>::next") if sc.get("ty") else None
+            if conv and nxt:
+                it = self.call_fn(conv[0], conv[1], [it])
+                found = nxt
+        if not found:
+            raise Unrecognised(f"for loop over {str(it)[:40]}")
+        crate, cal = found
     out = []
     for _ in range(LOOP_BOUND):
         fin = []
